@@ -12,6 +12,8 @@ import shutil
 import sys
 import tempfile
 
+from sim.vloop import pending_tasks  # noqa: E402
+
 from sim import rallyenv
 from sim.actors import Host, SimActorSystem, SimHang
 from sim.pool import namespaces
@@ -179,6 +181,8 @@ class RaceSim:
         out.simes = simes
         tdir = self.write_track()
         out.track_dir = tdir
+        # Rally's track loader leaves a rendered copy of the track in the temp directory at every load: keep it in the run directory
+        saved_tmp = tempfile.tempdir
         report_file = os.path.join(self.run_dir, "report.md")
 
         concurrent_ns, threading_ns, queue_ns = namespaces(system)
@@ -235,6 +239,7 @@ class RaceSim:
 
         system.on_deliver = on_deliver
         try:
+            tempfile.tempdir = self.run_dir
             driver.concurrent, driver.threading, driver.queue = concurrent_ns, threading_ns, queue_ns
             actor.bootstrap_actor_system = lambda *a, **kw: facade
             actor.actor_system_already_running = lambda *a, **kw: already_running
@@ -320,6 +325,7 @@ class RaceSim:
             console.error = saved["console.error"]
             console.warn = saved["console.warn"]
             sys.path[:] = saved["sys.path"]
+            tempfile.tempdir = saved_tmp
             shutil.rmtree(os.path.join(self.home, ".rally", "benchmarks", "races", "race-sim-1"), ignore_errors=True)
         return out
 
@@ -332,7 +338,7 @@ class RaceSim:
             if loop is None or loop.is_closed():
                 continue
             for _ in range(3):
-                pending = [t for t in asyncio.all_tasks(loop) if not t.done()]
+                pending = pending_tasks(loop)
                 if not pending:
                     break
                 for t in pending:
